@@ -237,6 +237,18 @@ func ruleNoLockCopy(c *Ctx, rule string) {
 			}
 		}
 	}
+	// ... nor passed or received by value: a method with a value receiver (or a by-value parameter) of such a type works on a
+	// copy of the mutex in whatever state it was in when the call was made
+	for _, f := range p.Fns {
+		if p.IsTestSupport(f) || len(f.Blocks) == 0 {
+			continue
+		}
+		for _, pa := range f.Params {
+			if hasLock(pa.Type(), 0) {
+				c.CheckAt(rule, "lock-carrying-value-not-copied:"+short(f)+":param:"+pa.Name(), f.Blocks[0].Instrs[0], false, "parameter / receiver "+pa.Name()+" of "+short(f)+" is a "+eng.TypeName(pa.Type())+" by value: every call copies the mutex inside it (possibly locked, and never unlocked in the copy)")
+			}
+		}
+	}
 	// vacuity guard: the lock-carrying types exist
 	nt := 0
 	for path, pkg := range p.AllPkgs {
